@@ -298,6 +298,8 @@ def check(repo, res, tier):
     # random parameters: every assignment of a distribution-valued dict draws exactly one fresh value per random parameter through
     # the distribution's own rvs / the supplied sampler (numpy's global stream: no private random_state) and installs that value
     _check_param_draws(repo, res, cls)
+    res.rule("R-REPRO", "random-parameter runs repeated on the same object after re-seeding return the same output")
+    _check_repro(repo, res, cls)
 
     # ---------------------------------------------------------------- R-PURE
     # a repeated seeded run reproduces the first one only if a run leaves nothing behind: two consecutive runs of _jump on one model
@@ -351,6 +353,92 @@ def check(repo, res, tier):
 
     # ---------------------------------------------------------------- R-MEAN
     _check_mean(repo, res, cls)
+
+
+def _check_repro(repo, res, cls):
+    """random-parameter deterministic runs end to end: simulate_param / solve_determ with the real integrate and the real parameters
+    setter behind them; the numerical integration is replaced by a function of the parameter values current when it is called, the
+    random stream by a script that `seeding` rewinds.  A call repeated after rewinding the stream must return the same output, on
+    the same model object, whatever was run before."""
+    from . import C09
+    from ..core.absint import Abs, Obj, Tok, Raised
+    from ..core.algebra import Undecided
+    from ..core.numarr import NumArr, num_summaries
+    names = C09.NAMES
+    ps = repo.resolve_setter(cls, "parameters")
+    for name in ("simulate_param", "solve_determ"):
+        f = repo.resolve_method(cls, name)
+        if f is None:
+            raise AnalysisError("%s vanished" % name)
+        for form in ("frozen", "sampler-args"):
+            for iteration in (1, 3):
+                tag = "repeat-after-reseeding(%s,iteration=%d)" % (form, iteration)
+                stream = {"k": 0}
+
+                def draw():
+                    stream["k"] += 1
+                    return 0.125 * stream["k"] + 0.5
+
+                def rvs(o, *a, **k):
+                    return [draw()]
+
+                def sampler(*a, **k):
+                    return draw()
+                me = C09.model(names)
+                me.attrs.update(dict(_x0=NumArr([10.0, 20.0]), _t0=0.5, _odeSolution=None, _odeTime=None, _odeOutput=None, _intName=None))
+
+                def integ(me_, tt, full_output=True, **k):
+                    pv = [float(v) for v in me_.attrs["_paramValue"]]
+                    sol = NumArr([[pv[1] * float(tk), pv[0] + pv[2]] for tk in tt])
+                    me_.attrs["_odeSolution"], me_.attrs["_odeOutput"] = sol, {"message": "ok"}
+                    return (sol, {"message": "ok"}) if full_output else sol
+                summ = dict(num_summaries())
+                summ.update(C09.helper_summaries(names))
+                summ.update({"rv_frozen.rvs": rvs, "Model._integrate": integ, "Model._integrate2": integ})
+                types = {"Number": lambda v: isinstance(v, (int, float)) and not isinstance(v, bool), "np.ndarray": lambda v: isinstance(v, NumArr)}
+                types.update(C09.TYPES)
+                types["np.ndarray"] = lambda v: isinstance(v, NumArr)
+                types["scipy.stats._distn_infrastructure.rv_frozen"] = lambda v: isinstance(v, Obj) and v.cls == "rv_frozen"
+
+                def fresh(mod):
+                    ab = Abs({}, types, summ, me, dict(C09.GETTERS), eq=C09.eq_hook, budget=400000)
+                    ab.class_methods = set(repo.all_methods(cls)) | {g for c in repo.mro(cls) for g in c.getters}
+                    ab.self_class = (repo, cls)
+                    ab.module = mod
+                    return ab
+                value = {"b": Obj("rv_frozen", tag="B"), "a": 1.25, "c": 3.75} if form == "frozen" else {"b": (("py", sampler), (2.0, 3.0)), "a": 1.25, "c": 3.75}
+                outs = []
+                try:
+                    kind, out = fresh(ps.module).run_function(ps.node, {ps.params[1]: value})
+                    if kind != "return":
+                        res.violated("R-REPRO", f, tag, "assigning random parameters raises %s" % (out,), node=f.node)
+                        continue
+                    for rep, seed_pos in enumerate((100, 100, 100)):
+                        stream["k"] = seed_pos                      # np.random.seed(same): the global stream is back at the same point
+                        kind, out = fresh(f.module).run_function(f.node, {"t": NumArr([1.0, 2.0, 3.0]), "iteration": iteration, "parallel": False, "full_output": True})
+                        if kind != "return":
+                            outs.append(("raise", out))
+                            break
+                        Y, runs = out if isinstance(out, tuple) and len(out) == 2 else (out, None)
+                        outs.append((Y.tolist() if isinstance(Y, NumArr) else Y, [r.tolist() if isinstance(r, NumArr) else r for r in runs] if runs is not None else None))
+                except Undecided as e:
+                    res.undecided("R-REPRO", f, tag, "outside the modelled subset: %s" % e)
+                    continue
+                problems = []
+                if outs and outs[-1][0] == "raise":
+                    problems.append("call %d raises %s" % (len(outs), outs[-1][1]))
+                elif any(o != outs[0] for o in outs[1:]):
+                    k_ = [i for i, o in enumerate(outs) if o != outs[0]][0]
+                    problems.append("call %d after rewinding the random stream returns %s, the first call returned %s" % (k_ + 1, outs[k_][1], outs[0][1]))
+                elif outs[0][1] is not None and len(outs[0][1]) == iteration:
+                    # every returned run uses a value drawn after the seed point (nothing left over from before the call)
+                    for r_ in outs[0][1]:
+                        slope = (r_[-1][0] - r_[-2][0]) / 1.0            # the grid ends ..., 2.0, 3.0
+                        if not (0.125 * 101 + 0.5 - 1e-9 <= slope <= 0.125 * (101 + 2 * iteration + 2) + 0.5 + 1e-9):
+                            problems.append("a returned run was integrated with the parameter value %s, which was not drawn after the seed point" % slope)
+                            break
+                res.check(not problems, "R-REPRO", f, tag, "the call repeated after rewinding the random stream returns the same mean and the same runs, each run from a value drawn inside the call",
+                          "; ".join(problems[:2]), node=f.node)
 
 
 def _check_mean(repo, res, cls):
